@@ -26,13 +26,17 @@ namespace nmtools::index
             if constexpr (meta::is_index_array_v<axes_t>) {
                 auto in_axis = static_cast<bool>(
                     index::count([&](const auto ii){
-                        using common_t = meta::promote_index_t<decltype(ii),size_t>;
-                        return (common_t)ii == (common_t)i;
+                        // negative axis counts from the last axis
+                        using signed_t = long long;
+                        auto axis = ((signed_t)ii < 0) ? ((signed_t)ii + (signed_t)dim) : (signed_t)ii;
+                        return axis == (signed_t)i;
                     }, axes)
                 );
                 nmtools::get<2>(at(result,i)) = in_axis ? -1 : 1;
             } else if constexpr (meta::is_index_v<axes_t>) {
-                nmtools::get<2>(at(result,i)) = ((size_t)axes == i) ? -1 : 1;
+                // negative axis counts from the last axis
+                auto axis = ((long long)axes < 0) ? ((long long)axes + (long long)dim) : (long long)axes;
+                nmtools::get<2>(at(result,i)) = (axis == (long long)i) ? -1 : 1;
             } else if constexpr (is_none_v<axes_t>) {
                 nmtools::get<2>(at(result,i)) = -1;
             }
